@@ -63,3 +63,42 @@ def cells_sexp(cells):
         f = Fraction(*float(x).as_integer_ratio())
         return str(f.numerator) if f.denominator == 1 else "%d/%d" % (f.numerator, f.denominator)
     return "(" + " ".join("(%s %s)" % (q(t), q(r)) for t, r in cells) + ")"
+
+
+def make_cells_fn(g, L, M, end=4.0 + 1e-6, start=-1e-9, rmax=0.05, max_cells=400000, probe=0.02):
+    """generic version: g(t) -> |value|, Lipschitz constant L, bound M, cover [start, end]"""
+    cells = []
+    left = start
+    r = min(0.01, rmax)
+    slack = 1e-12 * (1 + M)
+    if L <= 0:
+        L = 1e-300
+    while left <= end:
+        tries = 0
+        while True:
+            tc = left + r
+            v = g(tc)
+            gap = M - v - slack
+            if gap <= 0:
+                return ("exceeds", tc)
+            allowed = gap / L * 0.98
+            if allowed >= r:
+                break
+            r = allowed * 0.9
+            tries += 1
+            if r < 1e-9 or tries > 60:
+                best, bt = -1.0, None
+                for j in range(4001):
+                    t = left + probe * j / 4000
+                    v2 = g(t)
+                    if v2 > best:
+                        best, bt = v2, t
+                if best > M + slack:
+                    return ("exceeds", bt)
+                return ("undecided", "cell radius underflow near t=%.5f (gap %.3e)" % (tc, gap))
+        cells.append((tc, r))
+        left = tc + r * (1 - 1e-9)
+        r = min(r * 1.6, rmax)
+        if len(cells) > max_cells:
+            return ("undecided", "more than %d cells" % max_cells)
+    return ("cover", cells)
